@@ -1,2 +1,2 @@
-from . import core, strings, iters, maps, cell, errors
+from . import core, strings, iters, maps, cell, errors, nums
 ALL_MODELS = core.REG
